@@ -67,6 +67,14 @@ func main() {
 		fatal("usage: vh <cmd> --cases f --out f --seed n")
 	}
 	cmd := os.Args[1]
+	// The process environment names a proxy no configuration of forwarder ever selects: nothing may be routed by
+	// ambient settings (net/http reads these once per process, so they are set before any proxy is built).
+	for _, k := range []string{"NO_PROXY", "no_proxy"} {
+		os.Unsetenv(k)
+	}
+	for _, k := range []string{"HTTP_PROXY", "http_proxy", "HTTPS_PROXY", "https_proxy", "ALL_PROXY", "all_proxy"} {
+		os.Setenv(k, "http://stranger.test:9")
+	}
 	fs := flag.NewFlagSet(cmd, flag.ExitOnError)
 	e := &env{args: map[string]string{}}
 	fs.StringVar(&e.casesPath, "cases", "", "ndjson cases")
